@@ -28,6 +28,11 @@ type opF struct {
 	Old  int    `json:"old,omitempty"`  // probe: 0 = with the current secret, n = with the secret n changes ago
 	Pre  bool   `json:"presigned,omitempty"`
 	Put  bool   `json:"put,omitempty"` // probe by an upload (PUT /bucket/key) instead of a listing
+	// Chunked: the upload is a signed aws-chunked stream (overrides presigned). ChunkOld: its chunk signatures are made
+	// with the secret that many changes ago (0 = the same secret as the request's own signature): a stream whose
+	// chunks were not signed with the account's current secret carries no proof of it, whatever signed the headers
+	Chunked  bool `json:"chunked,omitempty"`
+	ChunkOld int  `json:"chunk_old,omitempty"`
 }
 
 type caseF struct {
@@ -142,9 +147,34 @@ func runF(c caseF) error {
 			if o.Pre {
 				opt.Presign, opt.Expires = true, 300
 			}
-			r, err := u.SendWith(req, opt)
+			var r *s3c.Resp
+			var err error
+			chunkN := n
+			if o.Chunked {
+				chunkN = n - o.ChunkOld
+				if chunkN < 0 {
+					chunkN = 0
+				}
+				payload := []byte(where + strings.Repeat(" chunked payload", 20))
+				req = &s3c.Req{Method: "PUT", Path: "/" + bkt + "/k"}
+				req.Set("X-Amz-Decoded-Content-Length", fmt.Sprint(len(payload)))
+				req.Set("Content-Encoding", "aws-chunked")
+				opt = u.Opt()
+				opt.Payload = s3c.StreamingSigned
+				seed := req.Sign(opt)
+				req.Body = s3c.EncodeChunked(payload, s3c.ChunkSpec{Mode: s3c.StreamingSigned, Sizes: []int{64, 100}, Seed: seed, Secret: secretF(tag, chunkN), Region: gw.Region, Time: opt.Time}).Bytes
+				r, err = s3c.Do(u.T, req)
+			} else {
+				r, err = u.SendWith(req, opt)
+			}
 			if err != nil {
 				return fmt.Errorf("SETUP: transport: %v", err)
+			}
+			if o.Chunked && n == cur && chunkN != cur {
+				if r.OK() {
+					return fmt.Errorf("%s: an aws-chunked upload whose headers are signed with the current secret (#%d) and whose chunks are signed with a replaced one (#%d) was accepted (%d)", where, n, chunkN, r.Status)
+				}
+				continue
 			}
 			switch {
 			case n == cur && !r.OK():
@@ -191,6 +221,10 @@ func TestC17F(t *testing.T) {
 				o.Old = rapid.SampledFrom([]int{0, 0, 1, 1, 2}).Draw(t, "old")
 				o.Pre = rapid.Bool().Draw(t, "presigned")
 				o.Put = rapid.IntRange(0, 2).Draw(t, "put") == 0
+				if rapid.IntRange(0, 3).Draw(t, "chunked") == 0 {
+					o.Chunked, o.Put, o.Pre = true, true, false
+					o.ChunkOld = rapid.SampledFrom([]int{0, 0, 1}).Draw(t, "chunk_old")
+				}
 			}
 			return o
 		}), 2, 10).Draw(t, "ops")
